@@ -34,9 +34,9 @@ func runReplay(c *checker, path string) {
 	}
 	rp := art.Replay
 	f := dnsgen.Build(c.items, selByIDs(c.items, rp.Items))
-	amb := dnsgen.AmbiguousTargets(f.Lines, dnsgen.Locations)
+	amb := dnsgen.AmbiguousTargets(f.Lines, dnsgen.AllLocations())
 	var cl *dnsgen.Client
-	for _, x := range dnsgen.Clients(true) {
+	for _, x := range dnsgen.ClientsX(true, true) {
 		if x.ID == rp.Client {
 			x := x
 			cl = &x
